@@ -385,17 +385,19 @@ SPELL = ['tuple', 'list', 'dotted']
 
 
 PLAN = {
-    'quick': [('T3', 'U2', ['none']), ('T2', 'UX', ['None', 'None,1', 'None,2']), ('TC2', 'UC2', ['none', 'x'])],
-    'thorough': [('T3', 'U3', ['none', 'None,1', 'x']), ('T4only', 'U2', ['none', 'x']), ('T3', 'UX', ['none', 'None', 'None,1', 'None,2']),
-                 ('TC3', 'UC2', ['none']), ('TC2', 'UX', ['None', 'None,1'])],
+    # (t-family, u-family, ignore menu, ops): ops 'all' = tree_update + items_to_tree (+ Dict + dict, tree_setitem, subclass root), 'tu' = tree_update only
+    'quick': [('T3', 'U2', ['none'], 'all'), ('T2', 'UX', ['None', 'None,1', 'None,2'], 'all'), ('TC2', 'UC2', ['none', 'x'], 'all')],
+    'thorough': [('T3', 'U3', ['none'], 'all'), ('T3', 'U3', ['None,1', 'x'], 'tu'), ('T4only', 'U2', ['none'], 'all'),
+                 ('T3', 'UX', ['None,1', 'None,2'], 'all'), ('T2', 'UX', ['none', 'None'], 'all'),
+                 ('TC3', 'UC2', ['none'], 'all'), ('TC2', 'UX', ['None', 'None,1'], 'all')],
 }
 
 
 def gen_pairs(tier):
     """one case = one t x a whole u-family x an ignore menu"""
-    for tf, uf, igs in PLAN[tier]:
+    for tf, uf, igs, ops in PLAN[tier]:
         for t in family(tf):
-            yield {'t': t, 'us': uf, 'ign': igs}
+            yield {'t': t, 'us': uf, 'ign': igs, 'ops': ops}
 
 
 FAMDESC = {
@@ -407,12 +409,12 @@ FAMDESC = {
 
 
 def plan_text(tier):
-    return '; '.join('%s=%d x %s=%d x ignore in {%s}' % (FAMDESC[tf], len(family(tf)), FAMDESC[uf], len(family(uf)), ', '.join(repr(IGN[i]) for i in igs))
-                     for tf, uf, igs in PLAN[tier])
+    return '; '.join('%s=%d x %s=%d x ignore in {%s}%s' % (FAMDESC[tf], len(family(tf)), FAMDESC[uf], len(family(uf)), ', '.join(repr(IGN[i]) for i in igs),
+                                                           ' (tree_update only)' if ops == 'tu' else '') for tf, uf, igs, ops in PLAN[tier])
 
 
 def pairs_count(tier):
-    return sum(len(family(tf)) * len(family(uf)) * len(igs) for tf, uf, igs in PLAN[tier])
+    return sum(len(family(tf)) * len(family(uf)) * len(igs) for tf, uf, igs, _ in PLAN[tier])
 
 
 def check_pairs(case):
@@ -421,6 +423,7 @@ def check_pairs(case):
     titems = case['t']
     us = family(case['us'])
     fine = len(us) <= 700
+    all_ops = case.get('ops', 'all') == 'all'
     mt = build(titems)
     ignores = [(name, IGN[name]) for name in case['ign']]
     tshow = show(mt, 200)
@@ -450,8 +453,10 @@ def check_pairs(case):
             out.cls(c)
             if flags:
                 out.nontrivial(ui if fine else c)
-            ops = [('tree_update', 'A', 'A'), ('items_to_tree', 'C', 'C')]
-            if first:
+            ops = [('tree_update', 'A', 'A')]
+            if all_ops:
+                ops.append(('items_to_tree', 'C', 'C'))
+            if first and all_ops:
                 ops.append(('Dict+', 'B', 'B'))
                 if ui % 3 == 0:
                     ops.append(('tree_update', 'A', 'S'))
@@ -485,7 +490,7 @@ def check_pairs(case):
                 if _mutated(out, usnap, 'u', op, label):
                     del ureal[uk]
             # tree_setitem on a copy, single-path updates only
-            if len(uitems) == 1:
+            if len(uitems) == 1 and all_ops:
                 path, value = uitems[0][:-1], uitems[0][-1]
                 for si, sp in enumerate(SPELL):
                     for lk in ('A', 'B', 'C') if si == 0 else ('A',):
@@ -521,7 +526,8 @@ def gen_chains(tier):
     for kind in (['dict'] if tier == 'quick' else list(CHAIN_LAYOUT)):
         for ti in range(len(S)):
             for ui in range(len(S)):
-                yield {'t': [list(p) for p in S[ti]], 'u': [list(p) for p in S[ui]], 'kind': kind, 'depth': 3 if (kind == 'dict' and tier != 'quick') else 2}
+                deep = kind == 'dict' and tier != 'quick' and S[ti][0][0] == 'a'      # the mirror image (a <-> b) of every other t is among these
+                yield {'t': [list(p) for p in S[ti]], 'u': [list(p) for p in S[ui]], 'kind': kind, 'depth': 3 if deep else 2}
 
 
 def _with_leaf(shape, leaf):
@@ -585,7 +591,7 @@ def check_chain(case):
                 label2 = lambda: 'r1 = tree_update(t, u); r2 = tree_update(v, r1) with %s v=%s' % (base, show(mv, 120))
                 r2, m2, f2 = step('r2', v, mv, r1, m1, label2)
             if f1 and f2:
-                out.nontrivial('%d%s' % (vi, dirn))
+                out.nontrivial(vi)
             if verify(label2, 'chain-r2'):
                 return out          # a kept object is no longer what its model says; everything later would be noise
             if r2 is not None and depth >= 3 and dirn == 'L':
@@ -599,8 +605,6 @@ def check_chain(case):
                     kept.append(('w', snapshot(w), w, mw))
                     label3 = lambda: '%s; r3 = tree_update(r2, w) with w=%s' % (label2(), show(mw, 120))
                     r3, m3, f3 = step('r3', r2, m2, w, mw, label3)
-                    if f1 and f2 and f3:
-                        out.nontrivial('%d/%d' % (vi, wi))
                     if verify(label3, 'chain-r3'):
                         return out
                     kept.pop()      # w
@@ -767,7 +771,7 @@ def suites(tier, seed):
                    'spellings (+3 missing paths each), merge identities, t untouched; non-trivial = (tree, layout) with a nested branch' % (3 if quick else 4),
               bounds=dict(max_leaves=3 if quick else 4, max_depth=3, keys=2, keys_small_trees=3, layouts=len(ROOT_KINDS))),
         Suite('update_pairs', lambda: gen_pairs(tier), check_pairs,
-              rule='all pairs (t, u) x ignore lists: %s; per (pair, ignore): tree_update, items_to_tree(tree_items(u), tree=t), Dict + dict (once per pair), '
+              rule='all pairs (t, u) x ignore lists: %s; per (pair, ignore): tree_update, items_to_tree(tree_items(u), tree=t), Dict + dict (for ignore=None), '
                    'tree_setitem on a copy for 1-leaf u (3 key spellings), a non-library dict subclass as root of u for every third u; recursive merge model; '
                    'identity+content snapshots of every branch of t and u after every call; non-trivial = t and u share a first key (counted per pair in '
                    'u-families <= 700, per (t, outcome class) in the larger ones); %d (pair, ignore) combinations' % (plan_text(tier), pairs_count(tier)),
@@ -775,8 +779,8 @@ def suites(tier, seed):
         Suite('update_chains', lambda: gen_chains(tier), check_chain,
               rule='all chains over the %d shapes with <= 2 leaves (keys ab, depth <= 3; leaves t:1 u:2 v:x w:3): r1 = tree_update(t,u); r2 = tree_update(r1,v) and '
                    'tree_update(v,r1) %s; after every call every kept operand and earlier result (t, u, v, w, r1, r2) is compared with its identity+content '
-                   'snapshot; non-trivial = every step of the chain overlaps'
-                   % (nS, 'in the dict layout' if quick else 'in 3 type layouts; in the dict layout also r3 = tree_update(r2,w) for every single-path w'),
+                   'snapshot; non-trivial = (t, u, v) where both t,u and r1,v overlap'
+                   % (nS, 'in the dict layout' if quick else 'in 3 type layouts; in the dict layout, for every t that has a path starting with a (the others are their a<->b mirror images), also r3 = tree_update(r2,w) for every single-path w'),
               bounds=dict(shapes=nS, chain_length=2 if quick else 3, layouts=1 if quick else 3)),
         Suite('table_tree', lambda: gen_tables(tier), check_table,
               rule='%d patterns with 1..4 wildcards x all tables of 0..3 rows (%s) with pairwise different paths (key cells %s, leaf cells 1/None/x) x base trees '
